@@ -471,6 +471,13 @@ func run(r *core.Run) {
 	r.Rule("every program of the grammar up to the node bound, per family, de-duplicated by text across families; " +
 		"states = distinct programs, transitions = (program, option) checks, evaluations = session executions in fresh runtimes; " +
 		"non-trivial = at least one option renamed at least one symbol (distinct by program text)")
+	r.Rule("dotctl / dotctl-gen families: every session of the grammar that contains a dotimes with a full control sequence (var COUNT [RESULT]) [body]: " +
+		"COUNT ranges over every argument term (literal, reference, call, let/flet/labels/lambda, nested loop) of the scope AROUND the loop, RESULT over every argument term and the body over nothing or every statement of the loop's scope, " +
+		"var over the same name pool as every other binder (so COUNT may read, call or assign the binding that the loop variable shadows, RESULT the loop variable itself); oracle: the same differential comparison, " +
+		"i.e. the analyzer must resolve COUNT where the evaluator evaluates it (before the loop environment exists) and RESULT in the loop's environment; class tags dotimes-count-shadow (COUNT mentions the loop variable's name), " +
+		"dotimes-result (closed result form), dotimes-result-ref (result form refers to a name bound outside it)")
+	r.Bound("dotimes_control_sequence", "shapes (v C), (v C) S, (v C R), (v C R) S; one node for the form plus the nodes of C, R, S; count literals are the session's auto-numbered integers (1..7 turns)")
+	r.Assume("a dotimes count that does not evaluate to an integer (a call of a list-tagging function, a function value) is kept: original and minified must then fail with the same condition")
 	r.Assume("value comparison renders function values as #<fun> and stderr lines that print a function as #<line-with-fun>: a printed function shows parameter and local names, which minification changes by design")
 	r.Assume("errors are compared by condition name, never by message (messages quote symbol names)")
 	r.Assume("symbol arguments of set/export/in-package/use-package use the ' shorthand; the long (quote x) spelling is outside the grammar (lang.md does not state the equivalence; the minifier's prescan does not recognise it)")
